@@ -347,7 +347,7 @@ pub fn rail_vehicle(r: &mut Rng, name: &str) -> RailVehicle {
 }
 const WEIRD: &[&str] = &["Bulk", "Manifest_Loaded", "1", "true", "null", "~", "a: b", "# c", " lead", "trail ", "x\ny", "\"q\"", "'s'", "-", "[1]", "{k}", "\u{e9}t\u{e9}", "0x1F", "1e3", ".inf", "", "y", "No"];
 pub fn train_config(r: &mut Rng, weird: bool) -> TrainConfig {
-    let nt = 1 + r.below(3);
+    let nt = 1 + r.below(6); // up to six car types: sums over a HashMap of that size depend visibly on its iteration order
     let mut names: Vec<String> = vec![];
     while names.len() < nt {
         let s = if weird { r.pick(WEIRD).to_string() } else { format!("Type{}", names.len()) };
@@ -398,9 +398,14 @@ pub fn chain_network(r: &mut Rng, m: usize, tt: TrainType, decorated: bool) -> N
     }
     let v: Vec<Link> = serde_json::from_value(serde_json::Value::Array(links)).expect("links");
     let mut n = Network(v);
-    n.init().expect("generated network validates");
+    // a generated network satisfies every documented rule; if the code's own validation rejects it, that is reported as
+    // a case of its own (see `run`), not as a crash of the harness
+    if let Err(e) = n.init() {
+        NET_REJECTS.lock().unwrap().push(format!("chain of {} physical link(s): {}", m, format!("{:#}", e).lines().take(3).collect::<Vec<_>>().join(" ")));
+    }
     n
 }
+pub static NET_REJECTS: std::sync::Mutex<Vec<String>> = std::sync::Mutex::new(Vec::new());
 
 pub fn small_consist(r: &mut Rng) -> Consist {
     let n = 1 + r.below(3);
@@ -409,6 +414,9 @@ pub fn small_consist(r: &mut Rng) -> Consist {
         else { PowerDistributionControlType::RESGreedy(altrios_core::consist::consist_utils::RESGreedy) };
     let mut c = Consist::new(locos, None, pdct);
     if r.chance(0.7) { c.init().expect("consist init"); }
+    // the limit-checking flag is a public field of every unit: a unit may carry a different one than its consist, and a
+    // reload has to give it back unchanged
+    if r.chance(0.3) { let k = r.below(c.loco_vec.len()); c.loco_vec[k].assert_limits = !c.loco_vec[k].assert_limits; }
     c
 }
 
@@ -864,6 +872,7 @@ fn dump_shapes() {
 
 pub fn run(seed: u64, n: usize, sink: &mut Sink) {
     if std::env::var("VH_C17_SHAPES").is_ok() { dump_shapes(); return; }
+    NET_REJECTS.lock().unwrap().clear();
     let mut r = Rng::new(seed ^ 0xC17);
     let thorough = n >= 100000;
     defaults(sink);
@@ -882,4 +891,12 @@ pub fn run(seed: u64, n: usize, sink: &mut Sink) {
         }
         k += 1;
     }
+    // every network the generators made satisfies the documented rules (they are made so): one the code's own init()
+    // rejects cannot be loaded back from any format - "can be written but not read back"
+    let rej = NET_REJECTS.lock().unwrap().clone();
+    let mut o = Outs::new(); o.z("generated_networks_rejected_by_init", 0);
+    sink.put(Case { id: "generated_networks/init".into(), kind: "generated_network_init".into(), coq: String::new(), outcome: Outcome::Ok(o),
+        tags: vec![format!("rejected:{}", rej.len().min(3))], input: json!({"rejected": rej.iter().take(5).collect::<Vec<_>>()}),
+        oracle_fail: if rej.is_empty() { vec![] } else { vec![format!("Network::init() rejects {} generated network(s) that satisfy every documented rule (they can be written but not loaded): {}", rej.len(), rej[0])] },
+        known: vec![], in_domain: true });
 }
